@@ -54,12 +54,20 @@ func (cache *Cache) evict() {
 	delete(cache.entries, key)
 }
 
+// Kinds of cache entries: a signature over a single message, or over a batch of messages.
+const (
+	keyKindMessage byte = 'm'
+	keyKindBatch   byte = 'b'
+)
+
 // cacheKey returns the cache key for a signature over the message(s) with the given digest.
 // Besides the signature bytes the key covers the claimed participants, because the same
 // signature bytes can be presented with a different set of claimed signers, and the
 // signature's concrete type, because the base implementations reject foreign types.
-func cacheKey(digest hotstuff.Hash, sig hotstuff.QuorumSignature) string {
+// The kind keeps the digest of a single message apart from the digest of a batch.
+func cacheKey(kind byte, digest hotstuff.Hash, sig hotstuff.QuorumSignature) string {
 	var key strings.Builder
+	_ = key.WriteByte(kind)
 	_, _ = fmt.Fprintf(&key, "%T|", sig)
 	_, _ = key.Write(digest[:])
 	participants := sig.Participants()
@@ -80,14 +88,14 @@ func (cache *Cache) Sign(message []byte) (sig hotstuff.QuorumSignature, err erro
 		return nil, err
 	}
 	hash := sha256.Sum256(message)
-	cache.insert(cacheKey(hash, sig))
+	cache.insert(cacheKey(keyKindMessage, hash, sig))
 	return sig, nil
 }
 
 // Verify verifies the given quorum signature against the message.
 func (cache *Cache) Verify(signature hotstuff.QuorumSignature, message []byte) error {
 	hash := sha256.Sum256(message)
-	key := cacheKey(hash, signature)
+	key := cacheKey(keyKindMessage, hash, signature)
 
 	if cache.check(key) {
 		return nil
@@ -107,13 +115,18 @@ func (cache *Cache) BatchVerify(signature hotstuff.QuorumSignature, batch map[ho
 	ids := slices.Sorted(maps.Keys(batch))
 	var hash hotstuff.Hash
 	hasher := sha256.New()
-	// then hash the messages in sorted order
+	// then hash the ids and the (length-prefixed) messages in sorted order,
+	// so that the digest identifies the batch of per-signer messages.
 	for _, id := range ids {
+		var n [8]byte
+		binary.LittleEndian.PutUint64(n[:], uint64(len(batch[id])))
+		_, _ = hasher.Write(id.ToBytes())
+		_, _ = hasher.Write(n[:])
 		_, _ = hasher.Write(batch[id])
 	}
-	hasher.Sum(hash[:])
+	hasher.Sum(hash[:0])
 
-	key := cacheKey(hash, signature)
+	key := cacheKey(keyKindBatch, hash, signature)
 
 	if cache.check(key) {
 		return nil
